@@ -38,7 +38,7 @@ def parseExt (s : String) : Option Ext :=
   | ["loc"] => some .badLocation
   | ["meta"] => some .badMeta
   | ["fail"] => some .loadErr
-  | ["ok", b, o] => do some (.ok (← parseU b) (← parseU o))
+  | ["ref", l, o, b] => do some (.ref (← parseU l) (← parseU o) (← parseU b))
   | _ => none
 
 def parseRType : String → Option RType
@@ -62,63 +62,118 @@ def handleHdr (ovf : Bool) (v mo ml tdo flen : Nat) : String :=
     | none => "panic"
     | some _ => "ok"
 
+/-- `<dtype> <dims|-> raw=<n|-> ext=<…> f=<n> i32=<n> i64=<n> f64=<n>` -/
+def parseTensor : List String → Option OnnxInit
+  | [dt, dims, raw, ext, f, i32, i64, f64] => do
+    let dt ← parseDType dt
+    let dims ← parseDims dims
+    let raw ← parseOptU (← kv "raw" raw)
+    let ext ← parseExt (← kv "ext" ext)
+    let f ← parseU (← kv "f" f)
+    let i32 ← parseU (← kv "i32" i32)
+    let i64 ← parseU (← kv "i64" i64)
+    let f64 ← parseU (← kv "f64" f64)
+    some { dims := dims, dtype := dt, raw := raw, ext := ext,
+           typed := { floats := f, int32s := i32, int64s := i64, doubles := f64 } }
+  | _ => none
+
+/-- `inline <ty> <dims|-> n=<n>` | `stored <ty> <dims|-> off=<n>`.  For inline constants the
+vector is placed at offset 0 of a file long enough to hold it (the flatbuffers verifier's
+guarantee); the outcome does not depend on where it is. -/
+def parseRConst : List String → Option RtenConst
+  | ["inline", ty, dims, n] => do
+    some { dims := ← parseUDims dims, ty := ← parseRType ty, data := .inline (← parseU (← kv "n" n)) 0 }
+  | ["stored", ty, dims, off] => do
+    some { dims := ← parseUDims dims, ty := ← parseRType ty, data := .stored (← parseU (← kv "off" off)) }
+  | _ => none
+
+def inlineFileLen (c : RtenConst) (slen : U) : U :=
+  match c.data with
+  | .inline n _ => if slen < n * 4 then n * 4 else slen
+  | .stored _ => slen
+
+def parseConstAttr (t : Option OnnxInit) (tok : String) : Option ConstAttr :=
+  match tok.splitOn ":" with
+  | ["int"] => some .valueInt
+  | ["float"] => some .valueFloat
+  | ["ints", n] => (parseU n).map .valueInts
+  | ["floats", n] => (parseU n).map .valueFloats
+  | ["value"] => t.map .value
+  | ["notensor"] => some .valueNoTensor
+  | ["unnamed"] => some .unnamed
+  | ["other"] => some .other
+  | _ => none
+
+def showAll : Except Outcome (List (List Nat × Nat)) → String
+  | .ok rs => "ok " ++ joinWith ";" (rs.map fun r =>
+      s!"{if r.1.isEmpty then "-" else showNats "," r.1} {r.2}")
+  | .error o => showOutcome o
+
+def splitBar (line : String) : List (List String) := (line.splitOn " | ").map words
+
 /-- Requests (answers: `ok <dims|-> <len>` | `err:<class>` | `panic`):
-* `onnx <dtype> <dims|-> raw=<n|-> ext=<none|loc|meta|fail|ok:bytes:offset> f=<n> i32=<n> i64=<n> f64=<n>`
+* `onnx <tensor>` with `<tensor>` = `<dtype> <dims|-> raw=<n|-> ext=<none|loc|meta|fail|ref:len:off:buflen> f=<n> i32=<n> i64=<n> f64=<n>`
+* `onnxall <tensor> | <tensor> | …` → `loadAll loadConstant`
+* `constop <outputs> <attr,…|-> | <tensor>` → `constOp`; `attrconst <-|n>` → `attrConstant`
 * `rten <rel|ovf> inline <ty> <dims|-> n=<n>`
 * `rten <rel|ovf> stored <ty> <dims|-> tdo=<n|-> off=<n> slen=<n>`
-* `rtenold …` same, answered by the model of the code before the C05 fixes
+* `rtenall <rel|ovf> tdo=<n> slen=<n> | inline … | stored … | …` → `loadAll addGraphConstant`
+* `rtenold …` same as `rten`, answered by the model of the code before the C05 fixes
 * `hdr <rel|ovf> <version> <model_offset> <model_len> <tensor_data_offset> <file_len>`
 * `nest <subgraph|raw> <depth>`: an ONNX file whose embedded messages nest `depth` levels below the
   top-level message, along fields the schema decodes as messages → `err:parse` iff
   `depth > Protobuf.maxDepth` (C38 `c38_depth_limit`: an embedded message at depth ≥ 100 is refused),
   else `past-parse` -/
 def handle (line : String) : String :=
-  match words line with
-  | ["onnx", dt, dims, raw, ext, f, i32, i64, f64] =>
+  match splitBar line with
+  | ("onnx" :: t) :: [] =>
+    ((parseTensor t).map fun c => showOutcome (loadConstant false c)).getD "bad-request"
+  | ("onnxall" :: t) :: rest =>
+    ((t :: rest).mapM parseTensor |>.map fun cs => showAll (loadAll (loadConstant false) cs)).getD
+      "bad-request"
+  | ["constop", outs, attrs] :: rest =>
     let r : Option String := do
-      let dt ← parseDType dt
-      let dims ← parseDims dims
-      let raw ← parseOptU (← kv "raw" raw)
-      let ext ← parseExt (← kv "ext" ext)
-      let f ← parseU (← kv "f" f)
-      let i32 ← parseU (← kv "i32" i32)
-      let i64 ← parseU (← kv "i64" i64)
-      let f64 ← parseU (← kv "f64" f64)
-      let c : OnnxInit := { dims := dims, dtype := dt, raw := raw, ext := ext,
-                            typed := { floats := f, int32s := i32, int64s := i64, doubles := f64 } }
-      some (showOutcome (loadConstant c))
+      let outs ← outs.toNat?
+      let t : Option OnnxInit := match rest with | [t] => parseTensor t | _ => none
+      let attrs ← if attrs == "-" then some [] else (attrs.splitOn ",").mapM (parseConstAttr t)
+      some (showOutcome (constOp false outs attrs))
     r.getD "bad-request"
-  | [kw, mode, "inline", ty, dims, n] =>
+  | ["attrconst", n] :: [] =>
+    if n == "-" then showOutcome (attrConstant false none)
+    else ((parseU n).map fun k => showOutcome (attrConstant false (some k))).getD "bad-request"
+  | ["rtenall", mode, tdo, slen] :: rest =>
     let r : Option String := do
       let ovf ← parseMode mode
-      let ty ← parseRType ty
-      let dims ← parseUDims dims
-      let n ← parseU (← kv "n" n)
-      let c : RtenConst := { dims := dims, ty := ty, data := .inline n }
-      let f : RtenFile := { tensorDataOffset := none, storageLen := 0 }
-      if kw == "rten" then some (showOutcome (addGraphConstant f c))
-      else if kw == "rtenold" then some (showOutcome (Old.addGraphConstant ovf f c))
-      else none
-    r.getD "bad-request"
-  | [kw, mode, "stored", ty, dims, tdo, off, slen] =>
-    let r : Option String := do
-      let ovf ← parseMode mode
-      let ty ← parseRType ty
-      let dims ← parseUDims dims
       let tdo ← parseOptU (← kv "tdo" tdo)
-      let off ← parseU (← kv "off" off)
       let slen ← parseU (← kv "slen" slen)
-      let c : RtenConst := { dims := dims, ty := ty, data := .stored off }
-      let f : RtenFile := { tensorDataOffset := tdo, storageLen := slen }
-      if kw == "rten" then some (showOutcome (addGraphConstant f c))
+      let cs ← rest.mapM parseRConst
+      some (showAll (loadAll (addGraphConstant ovf { tensorDataOffset := tdo, storageLen := slen }) cs))
+    r.getD "bad-request"
+  | [kw, mode, "inline", ty, dims, n] :: [] =>
+    let r : Option String := do
+      let ovf ← parseMode mode
+      let c ← parseRConst ["inline", ty, dims, n]
+      let f : RtenFile := { tensorDataOffset := none, storageLen := inlineFileLen c 0 }
+      if kw == "rten" then some (showOutcome (addGraphConstant ovf f c))
       else if kw == "rtenold" then some (showOutcome (Old.addGraphConstant ovf f c))
       else none
     r.getD "bad-request"
-  | ["nest", _, d] =>
+  | [kw, mode, "stored", ty, dims, tdo, off, slen] :: [] =>
+    let r : Option String := do
+      let ovf ← parseMode mode
+      let c ← parseRConst ["stored", ty, dims, off]
+      let tdo ← parseOptU (← kv "tdo" tdo)
+      let slen ← parseU (← kv "slen" slen)
+      let f : RtenFile := { tensorDataOffset := tdo, storageLen := slen }
+      if kw == "rten" then some (showOutcome (addGraphConstant ovf f c))
+      else if kw == "rtenold" then some (showOutcome (Old.addGraphConstant ovf f c))
+      else none
+    r.getD "bad-request"
+  | ["nest", _, d] :: [] =>
     match d.toNat? with
     | some d => if d > RtenVerif.Protobuf.maxDepth then "err:parse" else "past-parse"
     | none => "bad-request"
-  | ["hdr", mode, v, mo, ml, tdo, flen] =>
+  | ["hdr", mode, v, mo, ml, tdo, flen] :: [] =>
     match parseMode mode, v.toNat?, mo.toNat?, ml.toNat?, tdo.toNat?, flen.toNat? with
     | some ovf, some v, some mo, some ml, some tdo, some flen => handleHdr ovf v mo ml tdo flen
     | _, _, _, _, _, _ => "bad-request"
